@@ -1,12 +1,14 @@
-from runner import CbmcUnit, Entry
+from props.tasking_common import unit, E
 
-A = ["internal (enkiTS) back end compiled from source with -DRKCOMMON_TASKING_INTERNAL and the serial-debug back end; TBB global_control and OpenMP are closed libraries: not checked",
-     "worker threads: pthread_create is counted; workers are stalled (never scheduled) except to observe the stop flag when the scheduler is replaced"]
+LEVEL = "model_checking"
 
 
 def units(tier):
-    return [CbmcUnit("init_internal", "harness/C13_tasking.cpp", [Entry("vp_main_init", unwind=10, timeout=900,
-                     desc="numTaskingThreads() before init, after initTaskingSystem(n) for n in {-1,0,1,2,3} (n-1 workers created), and after re-initialisation with m in 1..3")],
-                     defines=["RKCOMMON_TASKING_INTERNAL"], heap_max=256, validate=False, native_defines=["VP_NATIVE_BUILD"], object_bits=9, assumptions=A, mem_unwind=40, elem_unwind=40),
-            CbmcUnit("init_serial", "harness/C13_tasking.cpp", [Entry("vp_main_init", unwind=10, timeout=900, desc="serial-debug back end: 0 before init, 1 after")],
-                     defines=[], heap_max=256, validate=False, native_defines=["VP_NATIVE_BUILD"], assumptions=A)]
+    q = tier == "quick"
+    init = lambda: E("vp_main_init", "numTaskingThreads() is 0 before initialisation; after initTaskingSystem(n), n in {-1,0,1,2,3}: n (n > 0; exactly n-1 workers created) or a positive hardware default; re-initialisation with m in 1..3 replaces it (m-1 new workers, the old ones stopped)", q)
+    act = lambda: E("vp_main_active", "parallel_for(n), n in 0..3, with a body that counts simultaneously active invocations: the maximum never exceeds the configured thread count", q)
+    us = [unit("internal_init", [init()], 1, 0, q, validate=False), unit("serial", [init(), act()], 1, 0, q, internal=False),
+          unit("internal_t1", [act()], 1, 0, q), unit("internal_t2", [act()], 2, 0, q), unit("internal_t2_p1", [act()], 2, 1, q)]
+    if not q:
+        us += [unit("internal_t3", [act()], 3, 0, q), unit("internal_t2_p2", [act()], 2, 2, q), unit("internal_t3_p1", [act()], 3, 1, q)]
+    return us
